@@ -278,6 +278,189 @@ def classify_revert_loss(c, maps):
     return "revert-target-lost"
 
 
+# ---------------------------------------------------------------------------------------------
+# statedb level: the two-level state (account trie; a contract's leaf carries the root of its
+# storage trie), blocks applied the node's way.  Model: coq/Trie/StateDBModel.v.
+SDB_ENGINE = os.path.join(vf.HARNESS, "engines/trie/zz_verif_statedb_hist_engine_test.go")
+SDB_CONTRACTS = ["ctrA", "ctrB", "ctrC"]
+SDB_VARS = ["v%d" % i for i in range(6)]
+SDB_ACCTS = ["acct%d" % i for i in range(5)]
+
+
+def sdb_hist_case(blocks, shape):
+    return {"blocks": blocks, "qcontracts": SDB_CONTRACTS, "qvars": SDB_VARS + ["never"], "qaccts": SDB_ACCTS + ["nobody"], "shape": shape}
+
+
+def sdb_hist_cases(ctx, n):
+    rng = ctx.rng
+    cases = []
+    cdir = os.path.join(vf.VERIF, "corpus", "C10", "statedb")
+    if os.path.isdir(cdir):
+        for f in sorted(os.listdir(cdir)):
+            if f.endswith(".json"):
+                cases.append(sdb_hist_case(json.load(open(os.path.join(cdir, f)))["blocks"], "corpus:" + f[:-5]))
+    for _ in range(n):
+        stor = {c: {} for c in SDB_CONTRACTS}
+        blocks = []
+        for bi in range(rng.randrange(2, 7)):
+            b = {"contracts": {}, "accounts": {}}
+            for cn in rng.sample(SDB_CONTRACTS, rng.choice([1, 1, 2, 3])):
+                cur = stor[cn]
+                style = rng.choice(["fill", "mixed", "mixed", "empty", "empty", "absent", "touch"])
+                ws = {}
+                if style == "fill" or (style == "empty" and not cur):
+                    for v in rng.sample(SDB_VARS, rng.randrange(1, 4)):
+                        ws[v] = "x%d" % rng.randrange(50)
+                elif style == "empty":
+                    ws = {v: "" for v in cur}           # the block deletes the LAST keys of the contract
+                    if rng.random() < 0.3:
+                        ws[rng.choice(SDB_VARS)] = ""   # ... and possibly an absent one
+                elif style == "mixed":
+                    for v in rng.sample(SDB_VARS, rng.randrange(1, 5)):
+                        ws[v] = "" if rng.random() < 0.45 else "y%d" % rng.randrange(50)
+                elif style == "absent":
+                    for v in [v for v in SDB_VARS if v not in cur][:rng.randrange(1, 3)]:
+                        ws[v] = ""
+                b["contracts"][cn] = ws
+                for v, x in ws.items():
+                    if x == "":
+                        cur.pop(v, None)
+                    else:
+                        cur[v] = x
+            for a in rng.sample(SDB_ACCTS, rng.choice([0, 0, 1, 2])):
+                b["accounts"][a] = rng.randrange(1, 1000)
+            blocks.append(b)
+        cases.append(sdb_hist_case(blocks, "random"))
+    return cases
+
+
+def _sha(b):
+    import hashlib
+    return hashlib.sha256(b).digest()
+
+
+def _varint(n):
+    out = b""
+    while True:
+        if n < 0x80:
+            return out + bytes([n])
+        out += bytes([(n & 0x7f) | 0x80])
+        n >>= 7
+
+
+def sdb_state_bytes(nonce, sroot):
+    """proto3 encoding of types.State{Nonce, StorageRoot} (fields 1 and 4; zero values omitted)."""
+    out = b""
+    if nonce:
+        out += b"\x08" + _varint(nonce)
+    if sroot:
+        out += b"\x22" + _varint(len(sroot)) + sroot
+    return out
+
+
+def sdb_hist_check(ctx, exe):
+    """Returns (fails, corr, stats)."""
+    rc, log, sbin = ctx.go_test_binary("state/statedb", [SDB_ENGINE], "statedb_c10.test", use_overlay=False)
+    if rc != 0:
+        raise RuntimeError("statedb history engine build failed:\n" + log[-3000:])
+    cases = sdb_hist_cases(ctx, 40 if ctx.tier == "quick" else 1500)
+    outs = [json.loads(l) for l in tg.run_engine(ctx, sbin, "TestVerifStateDBHistories", cases, "c10s")]
+    if len(outs) != len(cases):
+        raise RuntimeError("statedb history engine returned %d observations for %d cases" % (len(outs), len(cases)))
+    fails, corr = [], None
+    stats = {"cases": len(cases), "blocks": 0, "blocks_emptying_a_storage": 0, "refills_after_emptying": 0, "deletes_of_absent_vars": 0,
+             "blocks_touching_several_contracts": 0, "historical_roots_reread": 0, "model_storage_roots_compared": 0, "model_state_roots_compared": 0}
+    qlines, qwant = [], []      # model roots asked from the extracted model (SHA-256)
+    for c, o in zip(cases, outs):
+        rep = {"case": {"blocks": c["blocks"]}, "shape": c["shape"]}
+        if o.get("err"):
+            fails.append(("statedb-error", "a block could not be applied: " + o["err"], rep))
+            continue
+        stor, accts, emptied = {}, {}, set()
+        for bi, b in enumerate(c["blocks"]):
+            stats["blocks"] += 1
+            if len(b["contracts"]) > 1:
+                stats["blocks_touching_several_contracts"] += 1
+            for cn, ws in b["contracts"].items():
+                cur = stor.setdefault(cn, {})
+                was = bool(cur)
+                for v, x in ws.items():
+                    if x == "":
+                        if v not in cur:
+                            stats["deletes_of_absent_vars"] += 1
+                        cur.pop(v, None)
+                    else:
+                        cur[v] = x
+                if was and not cur:
+                    stats["blocks_emptying_a_storage"] += 1
+                    emptied.add(cn)
+                elif cur and not was and cn in emptied:
+                    stats["refills_after_emptying"] += 1
+                    emptied.discard(cn)
+            accts.update(b["accounts"])
+            v = o["views"][bi]
+            r2 = dict(rep, block=bi, view=v, expected_storage={k: dict(m) for k, m in stor.items()})
+            if v.get("err"):
+                fails.append(("statedb-error", "fresh StateDB on the root after the block cannot read: " + v["err"], r2))
+                continue
+            # map semantics per contract, through a fresh instance on the new root
+            bad = [cn for cn in c["qcontracts"] if v["vals"].get(cn, {}) != stor.get(cn, {})]
+            if bad:
+                fails.append(("statedb-get", "a fresh StateDB opened on the block's state root reads contract storage different from "
+                              "the writes/deletes applied so far (contract %s)" % bad[0], r2))
+            if any(v["exists"].get(cn, False) != (cn in stor) for cn in c["qcontracts"]) or \
+               any(v["exists"].get(a, False) != (a in accts) or v["nonces"].get(a, 0) != accts.get(a, 0) for a in c["qaccts"]):
+                fails.append(("statedb-get", "a fresh StateDB opened on the block's state root reads account states different from what was put", r2))
+            # hand-over of the storage root into the account leaf: empty storage <-> empty root
+            hb = [cn for cn in c["qcontracts"] if bool(v["sroots"].get(cn)) != bool(stor.get(cn))]
+            if hb:
+                fails.append(("statedb-storage-root-handover", "the storage root kept in the account leaf of %s is %s although its storage is %s "
+                              "after the block" % (hb[0], "non-empty" if v["sroots"].get(hb[0]) else "empty", "empty" if not stor.get(hb[0]) else "non-empty"), r2))
+            # history independence at the state level
+            if o["rebuilt"][bi] != v["root"]:
+                fails.append(("statedb-root-history", "the state root after the block differs from the root of a fresh state holding the same "
+                              "surviving (account, storage) contents written in one block", dict(r2, rebuilt_root=o["rebuilt"][bi])))
+            if o["long"][bi] != v["root"]:
+                fails.append(("statedb-root-long-lived", "applying the blocks through fresh StateDBs (the node's way) and through one long-lived "
+                              "StateDB gives different state roots", dict(r2, long_lived_root=o["long"][bi])))
+            # historical roots stay readable and unchanged
+            stats["historical_roots_reread"] += 1
+            if o["final"][bi] != v:
+                fails.append(("statedb-historical-root", "an earlier state root reads differently after later blocks", dict(r2, later_view=o["final"][bi])))
+            # model roots: storage tries, then the account trie over H(marshal(State{nonce, model storage root}))
+            mleaves = []
+            for cn in sorted(stor):
+                ent = ["%s:%s" % (_sha(k.encode()).hex(), _sha(x.encode()).hex()) for k, x in stor[cn].items()]
+                if ent:
+                    qlines.append("RS " + " ".join(ent))
+                    qwant.append(("storage", v["sroots"].get(cn, ""), r2, cn))
+                    stats["model_storage_roots_compared"] += 1
+                # the account leaf is computed from the IMPLEMENTATION's storage root only when it passed the model comparison
+                sroot = bytes.fromhex(v["sroots"].get(cn, "")) if ent else b""
+                mleaves.append("%s:%s" % (_sha(cn.encode()).hex(), _sha(sdb_state_bytes(0, sroot)).hex()))
+            for a in sorted(accts):
+                mleaves.append("%s:%s" % (_sha(a.encode()).hex(), _sha(sdb_state_bytes(accts[a], b"")).hex()))
+            qlines.append("RS " + " ".join(mleaves))
+            qwant.append(("state", v["root"], r2, None))
+            stats["model_state_roots_compared"] += 1
+    if exe and qlines:
+        out = [l for l in tg.run_driver(ctx, exe, "\n".join(qlines) + "\n") if l.startswith("root ")]
+        if len(out) != len(qlines):
+            corr = ("model driver returned %d roots for %d statedb-level queries" % (len(out), len(qlines)), [])
+        else:
+            bad = []
+            for l, (kind, want, r2, cn) in zip(out, qwant):
+                got = l.split()[1]
+                got = "" if got == "-" else got
+                if got != want:
+                    bad.append({"kind": kind, "contract": cn, "model_root": got, "impl_root": want, "case": r2["case"], "block": r2["block"]})
+            if bad:
+                # a storage root that is present although the storage is empty (or the converse) is already a predicate failure
+                corr = ("statedb level: model root (extracted tree model, SHA-256) and implementation root differ on %d of %d "
+                        "storage/state roots" % (len(bad), len(qlines)), bad[:3])
+    return fails, corr, stats
+
+
 def parse_all(out):
     import re
     flat = " ".join(out.split())
@@ -441,6 +624,12 @@ def run(ctx):
     fails += rfails
     corr = corr or rcorr
     mark("revert")
+    # ---- statedb level: per-contract storage tries under the account trie, blocks the node's way
+    sfails, scorr, sstats = sdb_hist_check(ctx, exe_r)
+    fails += sfails
+    corr = corr or scorr
+    ctx.cov["statedb_histories"] = sstats
+    mark("statedb histories")
     # evidence
     nb = sum(len(c["batches"]) for c in cases)
     ctx.cov["evaluations"] = nb
